@@ -30,9 +30,22 @@ def run(defaults=None, args=None, script_parts=None, cwd=None, warnings=None):
        See :class:`zope.testrunner.runner.Runner`
 
     """
+    _tolerate_unencodable_output()
     failed = run_internal(defaults, args, script_parts=script_parts, cwd=cwd,
                           warnings=warnings)
     sys.exit(int(failed))
+
+
+def _tolerate_unencodable_output():
+    # Test ids, exception messages and captured output may contain
+    # characters which the encoding of the standard streams cannot
+    # represent (e.g. the lone surrogates ``os.fsdecode`` produces for
+    # undecodable file names).  Reporting them must not abort the run.
+    for stream in (sys.stdout, sys.stderr):
+        reconfigure = getattr(stream, 'reconfigure', None)
+        if (reconfigure is not None and getattr(stream, 'errors', None)
+                in ('strict', 'surrogateescape')):
+            reconfigure(errors='backslashreplace')
 
 
 def run_internal(defaults=None, args=None, script_parts=None, cwd=None,
